@@ -161,7 +161,10 @@ func runC16(c *fw.Ctx) {
 	// conflicting names next to nameless (blank / dot-free) imports, and a reference to a package that
 	// is not imported yet (the restorer has to add it and resolve the clash)
 	clashBlank := "package p\n\nimport (\n\t_ \"embed\"\n\t\"log\"\n\t_ \"net/http/pprof\"\n\tlog3 \"z/log\"\n)\n\nfunc f() {\n\tlog.A()\n\tlog3.B()\n\tc16AddedRef()\n}\n"
-	for _, s := range []struct{ n, s string }{{"synthetic/clash", clash}, {"synthetic/dot", dot}, {"synthetic/clash-with-blank", clashBlank}} {
+	// multi-line raw strings and block comments (their line offsets are recorded relative to the
+	// file the restorer registers)
+	raw := "package p\n\nimport \"fmt\"\n\n/*\nblock\ncomment\n*/\nvar s = `line1\nline2\nline3`\n\nfunc f() {\n\tfmt.Println(`a\nb`, s) /* x\n\ty */\n}\n"
+	for _, s := range []struct{ n, s string }{{"synthetic/clash", clash}, {"synthetic/dot", dot}, {"synthetic/clash-with-blank", clashBlank}, {"synthetic/raw-strings", raw}} {
 		ref := &c16Ref{name: s.n, src: []byte(s.s)}
 		b, _ := rtParsePrint(ref.src)
 		ref.plain = string(b)
@@ -298,7 +301,40 @@ func runC16(c *fw.Ctx) {
 					for k := 0; k < opsPer; k++ {
 						ref := refs[gr.Intn(len(refs))]
 						res := result{g: g, ref: ref}
-						switch gr.Intn(6) {
+						switch gr.Intn(7) {
+						case 6:
+							// one restorer of the goroutine's own prints three files in turn
+							res.op = "Parse+Fprint/own-restorer-for-three-files"
+							own := decorator.NewRestorer()
+							var sb strings.Builder
+							for j := 0; j < 3; j++ {
+								rf := refs[(gr.Intn(len(refs))+j)%len(refs)]
+								if j == 1 {
+									rf = refs[len(refs)-1] // the raw-string file is never the first one
+								}
+								f, err := decorator.Parse(rf.src)
+								if err != nil {
+									res.err = err.Error()
+									break
+								}
+								var b bytes.Buffer
+								var perr error
+								if sig, _ := fw.Try(func() { perr = own.Fprint(&b, f) }); sig != "" {
+									res.err = sig
+									break
+								}
+								if perr != nil {
+									res.err = perr.Error()
+									break
+								}
+								if b.String() != rf.plain {
+									res.err = "file " + rf.name + " printed third-hand by the goroutine's restorer differs from the same file printed alone"
+									break
+								}
+								sb.WriteString(b.String())
+							}
+							_ = sb
+							res.out = "sequence-ok"
 						case 5:
 							res.op = "imports/shared-gobuild"
 							out, tree, err := c16Imports(ref.src, sharedBuildGoast, sharedBuild)
@@ -382,6 +418,8 @@ func runC16(c *fw.Ctx) {
 					switch {
 					case res.op == "Parse+Fprint":
 						want = res.ref.plain
+					case res.op == "Parse+Fprint/own-restorer-for-three-files":
+						want, wantErr = "sequence-ok", ""
 					case strings.HasPrefix(res.op, "imports/"):
 						want, wantErr = res.ref.imp, res.ref.impErr
 						if res.op == "imports/shared-goast-lazy-default" {
